@@ -33,6 +33,15 @@ pub fn start() {
     ON.with(|c| c.set(true));
 }
 
+/// suspends accounting (the harness converts a decoded value into the reference universe)
+pub fn pause() {
+    ON.with(|c| c.set(false));
+}
+
+pub fn resume() {
+    ON.with(|c| c.set(true));
+}
+
 pub fn stop() -> MemFigures {
     ON.with(|c| c.set(false));
     MemFigures {
